@@ -4,6 +4,8 @@
      kind 1 (blit_anti_h, one run): alpha
      kind 2 (blit_v height 1): alpha               (len = 1)
      kind 3 (blit_anti_h2): alpha0 alpha1           (len = 2)
+     kind 4 (public Pixmap::fill_rect, aliased; tiled when W > 8191): no extra
+     kind 5 (public fill_rect with a mask of size mw x mh filled with 255): mw mh
    result: -1 (blitter rejected the draw: nothing changes), -9 (stage not modelled), else W * 4 bytes *)
 From Coq Require Import ZArith Bool List String.
 From TS Require Import Base.F32 Model.Pixel.
@@ -32,11 +34,26 @@ Definition run_px (l : list Z) : list Z :=
   | kind :: mode :: hq :: aa :: r :: g :: b :: a :: hm :: x0 :: len :: w :: rest =>
       let '(row, extra) := dec_row (Z.to_nat w) rest in
       let p := mkpaint (mode_name mode) (color_from_rgba8 r g b a) (negb (aa =? 0)) (negb (hq =? 0)) in
+      let unchanged := flat_map (fun i => [pr (in_dst i); pg (in_dst i); pb (in_dst i); pa (in_dst i)]) row in
+      if kind =? 5 then
+        (* RasterPipelineBlitter::new refuses a mask whose size differs from the pixmap's *)
+        match extra with
+        | mw :: mh :: _ =>
+            if (mw =? w) && (mh =? 1) then
+              match blitter_new p true with
+              | None => unchanged
+              | Some bl => enc_row (blit_rect_row p bl (Z.to_nat x0) (Z.to_nat len)
+                                      (map (fun i => mklin (in_dst i) 255 0) row))
+              end
+            else unchanged
+        | _ => [-3]
+        end
+      else
       match blitter_new p (negb (hm =? 0)) with
-      | None => [-1]
+      | None => if kind =? 4 then unchanged else [-1]
       | Some bl =>
           let x0 := Z.to_nat x0 in let len := Z.to_nat len in
-          if kind =? 0 then enc_row (blit_rect_row p bl x0 len row)
+          if (kind =? 0) || (kind =? 4) then enc_row (blit_rect_row p bl x0 len row)
           else if kind =? 1 then
             match extra with alpha :: _ => enc_row (blit_anti_h_row p bl alpha x0 len row) | _ => [-3] end
           else if kind =? 2 then
